@@ -231,7 +231,7 @@ def run_and_judge(ctx, cases, P, tag, timeout=600, known_hang=False):
             if not chk or "0" in chk[1::2]:
                 ctx.signal("K", "%s:checker" % tag, "verified checker rejects the implementation's node-aware package: %s %s" % (chk, mout.get(c["cid"] + pre)),
                            case=c["line"], extra=dict(model_case=line))
-            for key in ("FI", "FBI"):
+            for key in ("FI", "FBI", "RSI", "RM", "RL", "RMN"):
                 a = split_ranks(res.get(pre + key, [])); b = split_ranks(mr.get(key, []))
                 if a != b:
                     ctx.signal("K", "%s:%s" % (tag, key), "model %s vs implementation %s" % (b, a), case=c["line"],
